@@ -38,6 +38,7 @@ type SeqViolation struct {
 
 // seqCtx is handed to a check.
 type seqCtx struct {
+	prop     string
 	polls    int64
 	out      *SeqOut
 	shard    int
@@ -90,6 +91,9 @@ func (c *seqCtx) Excluded() { c.out.ExcludedUnspecified++ }
 
 // Fail records a violation; input must be enough for replaySeq to re-run the case.
 func (c *seqCtx) Fail(prop, desc, input string) {
+	if c.prop != "" && prop != c.prop && len(prop) == 3 && prop[0] == 'C' {
+		return // a violation of another property: decided by that property's own check
+	}
 	if len(c.out.Violations) < c.maxViol {
 		c.out.Violations = append(c.out.Violations, SeqViolation{Desc: prop + ": " + desc, Input: input})
 	} else {
@@ -124,6 +128,7 @@ func cmdSeq(args []string) {
 	maxviol := fs.Int("maxviol", 25, "violation cap")
 	timeout := fs.Duration("timeout", 0, "wall-clock cap")
 	memprof := fs.String("memprofile", "", "write a heap profile at the end")
+	prop := fs.String("prop", "", "record only violations of this property")
 	fs.Parse(args)
 	ck := seqChecks[*name]
 	if ck == nil {
@@ -136,6 +141,7 @@ func cmdSeq(args []string) {
 	}
 	c := &seqCtx{out: &SeqOut{Check: *name, Tier: *tier, Shard: *shard, Exhaustive: true, Rule: ck.rule, Extra: map[string]int64{}},
 		thorough: *tier == "thorough", seen: map[uint64]struct{}{}, maxViol: *maxviol}
+	c.prop = *prop
 	fmt.Sscanf(*shard, "%d/%d", &c.shard, &c.nshards)
 	if c.nshards == 0 {
 		c.nshards = 1
